@@ -13,7 +13,13 @@ SHAPES = [b'a = "1" | (b = "x" & c = "q")', b'a = "1" & (b = "x" | c = "q")', b'
 
 
 def enc_args(args):
-    return "ARGS %d%s" % (len(args), "".join(" S " + core.enc_str(a[1]) if a[0] == "S" else " I %d" % a[1] for a in args))
+    def one(a):
+        if a[0] in ("S", "NS", "PS"):
+            return " %s %s" % (a[0], core.enc_str(a[1]))
+        if a[0] in ("I", "NI"):
+            return " %s %d" % (a[0], a[1])
+        return " " + a[0]
+    return "ARGS %d%s" % (len(args), "".join(one(a) for a in args))
 
 
 def query_text(rng, ds, nph_max=3):
@@ -159,6 +165,15 @@ def gen(rng, tier, focus):
                                                    ("prepared", deep(201), 2, [("S", b"3"), ("S", b"x")]), ("direct", deepp(70), 2, [("S", b"3"), ("S", b"x")]),
                                                    ("direct", deep(70), 2, [("S", b"3")]), ("tx", deepp(130), 2, [("S", b"1"), ("S", b"t")])]):
             qid = "%s.b%d" % (h, pn)
+            lines.append("SQLQ %s %s %s %s 1" % (qid, h, mode, core.enc_str(txt)))
+            lines.append(enc_args(args))
+            stmts.append((qid, ds, opts, mode, txt, [args], m))
+        # argument types database/sql converts before the driver sees them (valid NullString /
+        # NullInt64, *string, bool), on every path
+        for pn, (mode, txt, m, args) in enumerate([("prepared", b"text = $1 ; a", 1, [("NS", b"t")]), ("direct", b"text = $1 ; a", 1, [("NS", b"t")]), ("tx", b"text = $1 ; a", 1, [("PS", b"u")]),
+                                                   ("prepared", b"text = $1 | a = $2", 2, [("PS", b"t"), ("NI", 2)]), ("direct", b"a = $1", 1, [("NI", 1)]), ("prepared", b"a = $1", 1, [("NI", 1)]),
+                                                   ("prepared", b"text = $1", 1, [("BT",)]), ("direct", b"text = $1", 1, [("BF",)]), ("prepared", b"count = $1 ; count", 1, [("NS", b"7")])]):
+            qid = "%s.v%d" % (h, pn)
             lines.append("SQLQ %s %s %s %s 1" % (qid, h, mode, core.enc_str(txt)))
             lines.append(enc_args(args))
             stmts.append((qid, ds, opts, mode, txt, [args], m))
